@@ -198,6 +198,7 @@ theorem nextUpDown_spec_big (up : Bool) (x : Q) (limit : Nat) (hx : Reduced x) (
       omega
   have hres : nextUpDown up x limit = .ok (some (R.addSubInt false (if up then r else l) t)) := by
     simp only [nextUpDown, if_neg (by omega : ¬ limit = 0), hsplit, bind_ok',
+      if_neg (by omega : ¬ (limit = 1 ∧ x.den = 1)),
       if_neg (by omega : ¬ x.den ≤ limit), pure_bind, hfn]
     rfl
   have hxv : x.val = f.val + t := by rw [hfval]; ring
@@ -375,7 +376,8 @@ theorem nextUpDown_spec_small (up : Bool) (x : Q) (limit : Nat) (hx : Reduced x)
       hlow.le (by rw [htg3]; linarith)
     obtain ⟨s1, s2, s3⟩ := shift_spec l t hinv.reduced_left
     have hres : nextUpDown false x limit = .ok (some (R.addSubInt false l t)) := by
-      simp only [nextUpDown, if_neg (by omega : ¬ limit = 0), hsplit, bind_ok', if_pos hsm,
+      simp only [nextUpDown, if_neg (by omega : ¬ limit = 0), hsplit, bind_ok',
+        if_neg (by omega : ¬ (limit = 1 ∧ x.den = 1)), if_pos hsm,
         Bool.false_eq_true, if_false, htg1, hfn]
       rfl
     refine ⟨_, hres, s1, by simpa [s3] using hinv.lle, ?_, ?_⟩
@@ -402,7 +404,8 @@ theorem nextUpDown_spec_small (up : Bool) (x : Q) (limit : Nat) (hx : Reduced x)
       (by rw [htg3]; linarith) hhigh
     obtain ⟨s1, s2, s3⟩ := shift_spec r t hinv.reduced_right
     have hres : nextUpDown true x limit = .ok (some (R.addSubInt false r t)) := by
-      simp only [nextUpDown, if_neg (by omega : ¬ limit = 0), hsplit, bind_ok', if_pos hsm,
+      simp only [nextUpDown, if_neg (by omega : ¬ limit = 0), hsplit, bind_ok',
+        if_neg (by omega : ¬ (limit = 1 ∧ x.den = 1)), if_pos hsm,
         if_true, htg1, hfn]
       rfl
     refine ⟨_, hres, s1, by simpa [s3] using hinv.rle, ?_, ?_⟩
@@ -423,35 +426,18 @@ end Dashu.Model.Ratio
 namespace Dashu.Model.Ratio
 open Dashu.Model
 
-/-- `limit = 1`: integers; the neighbours are `n ∓ 1` -/
+/-- `limit = 1`: integers; the early return gives the neighbours `n ∓ 1` -/
 theorem nextUpDown_limit_one (up : Bool) (n : ℤ) :
     nextUpDown up ⟨n, 1⟩ 1 = .ok (some ⟨if up then n + 1 else n - 1, 1⟩) := by
   have hsplit : splitAtPoint ⟨n, 1⟩ = .ok (n, Q.zero) := by
     simp [splitAtPoint, divRemK]
-  have h12 : reduce ⟨1, 2⟩ = .ok ⟨1, 2⟩ := by decide
-  have hm12 : reduce ⟨-1, 2⟩ = .ok ⟨-1, 2⟩ := by decide
+  unfold nextUpDown
+  simp only [hsplit, bind_ok', Nat.one_ne_zero, if_false, and_self, if_true]
   cases up
-  · have htg : R.sub Q.zero ⟨1, 1 * 1⟩ = .ok ⟨-1, 1⟩ := by decide
-    have hfn : fareyNeighbors ⟨-1, 1⟩ 1 = .ok (some (Q.negOne, Q.zero)) := by
-      simp [fareyNeighbors, fareyLoop, Q.negOne, Q.zero, hm12]; rfl
-    unfold nextUpDown
-    simp only [hsplit, bind_ok', htg, Nat.one_ne_zero, if_false, le_refl, if_true,
-      Bool.false_eq_true]
-    rw [hfn]
-    simp only [bind_ok', R.addSubInt, Q.negOne, Bool.false_eq_true, if_false]
-    simp only [pure, Except.pure]
-    congr 2
-    simp; ring
-  · have htg : R.add Q.zero ⟨1, 1 * 1⟩ = .ok ⟨1, 1⟩ := by decide
-    have hfn : fareyNeighbors ⟨1, 1⟩ 1 = .ok (some (Q.zero, Q.one)) := by
-      simp [fareyNeighbors, fareyLoop, Q.one, Q.zero, h12]; rfl
-    unfold nextUpDown
-    simp only [hsplit, bind_ok', htg, Nat.one_ne_zero, if_false, le_refl, if_true]
-    rw [hfn]
-    simp only [bind_ok', R.addSubInt, Q.one, Bool.false_eq_true, if_false]
-    simp only [pure, Except.pure]
-    congr 2
-    simp; ring
+  · simp only [Bool.false_eq_true, if_false, R.intSub, Q.one, pure, Except.pure]
+    congr 2; simp
+  · simp only [if_true, R.addSubInt, Q.one, Bool.false_eq_true, if_false, pure, Except.pure]
+    congr 2; simp; ring
 
 /-- **`RBig::next_up` / `RBig::next_down`** for every reduced `x` and every `limit ≥ 1`: the
     result is reduced with a denominator `≤ limit`, lies strictly above / below `x`, and no
@@ -522,10 +508,12 @@ theorem nearest_spec (x : Q) (limit : Nat) (hx : Reduced x) :
     obtain ⟨sr1, sr2, _⟩ := shift_spec r t hrred
     have hdn : nextUpDown false x limit = .ok (some (R.addSubInt false l t)) := by
       simp only [nextUpDown, if_neg (by omega : ¬ limit = 0), hsplit, bind_ok',
+        if_neg (by omega : ¬ (limit = 1 ∧ x.den = 1)),
         if_neg (by omega : ¬ x.den ≤ limit), pure_bind, hfn]
       rfl
     have hup : nextUpDown true x limit = .ok (some (R.addSubInt false r t)) := by
       simp only [nextUpDown, if_neg (by omega : ¬ limit = 0), hsplit, bind_ok',
+        if_neg (by omega : ¬ (limit = 1 ∧ x.den = 1)),
         if_neg (by omega : ¬ x.den ≤ limit), pure_bind, hfn]
       rfl
     obtain ⟨s, hs1, hs2, hs3⟩ := R.add_spec l r hlred hrred
